@@ -2,6 +2,7 @@ import Vegeta.Go.Proto
 import Vegeta.Model.CodecResult
 import Vegeta.Spec.Layout
 import Vegeta.Model.GobValue
+import Vegeta.Model.EncodeCmd
 /-! Driver operations of property C07 (ops are named `c07.<name>`).
 
 Result tokens: `attack seq code ts lat bytesOut bytesIn error body method url headers` with
@@ -160,6 +161,27 @@ def handle (op : String) (args : List String) : Option String :=
   | "c07.decgob" => do
     let (b, _) ← bytes.run args
     pure (showResults (Vegeta.Model.GobValue.decodeGob b))
+  | "c07.encodecmd" => do
+    -- src codec, dst codec, zone, input bytes: the `encode` command loop (Model/EncodeCmd.lean)
+    let ((src, dst, z, b), _) ← (do
+      let cdP : P Vegeta.Model.EncodeCmd.Codec := do
+        let ct ← tok
+        match ct with
+        | "csv" => pure Vegeta.Model.EncodeCmd.Codec.csv
+        | "json" => pure Vegeta.Model.EncodeCmd.Codec.json
+        | "gob" => pure Vegeta.Model.EncodeCmd.Codec.gob
+        | _ => failure
+      let s ← cdP
+      let d ← cdP
+      let zt ← tok
+      let z ← (if zt == "u" then pure Vegeta.Model.GobValue.Zone.utc else
+        match zt.toInt? with
+        | some o => pure (Vegeta.Model.GobValue.Zone.fixed o)
+        | none => failure : P Vegeta.Model.GobValue.Zone)
+      let b ← bytes
+      pure (s, d, z, b)).run args
+    let o := Vegeta.Model.EncodeCmd.encodeCmd src dst z b
+    pure ((if o.2 then "ok " else "err ") ++ hexEncode o.1)
   | "c07.equal" => do
     let ((a, b), _) ← (do let a ← resultP; let b ← resultP; pure (a, b)).run args
     pure (if a.equal b then "1" else "0")
